@@ -212,7 +212,9 @@ func replayOnce(c *Ctx, rf *ReplayFile) (bool, string, error) {
 		if fmt.Sprint(rf.Expect["entry"]) == "format-d" {
 			v = checkFormatD(ref, o)
 		} else {
-			sh := fileShape{rel: rf.CLI.Argv[len(rf.CLI.Argv)-1]}
+			last := rf.CLI.Argv[len(rf.CLI.Argv)-1]
+			last = strings.TrimPrefix(strings.TrimPrefix(last, "--file="), "-f=")
+			sh := fileShape{rel: last}
 			for _, d := range rf.CLI.Disk0 {
 				if d.Kind == "file" && string(d.Data) == string(in) && d.Path != "sibling.dsl" {
 					sh.real = d.Path
